@@ -49,21 +49,21 @@ Qed.
 
 Lemma init_cpage_some cs idx bs cp : init_cpage cs idx bs = Some cp ->
   0 < bs /\ snd (page_area cs idx) / bs < 65536 /\
-  cp = mkCPage idx (page_init bs (snd (page_area cs idx)) false) [].
+  cp = mkCPage idx (page_init bs (snd (page_area cs idx)) false) [] /\ bs <= snd (page_area cs idx).
 Proof.
   unfold init_cpage. destruct ((0 <? bs) && (bs <=? snd (page_area cs idx)) && (snd (page_area cs idx) / bs <? 65536)) eqn:E; [|discriminate].
   apply andb_prop in E as (E & E3). apply andb_prop in E as (E1 & E2).
-  apply N.ltb_lt in E1, E3. intros H. inversion H. auto.
+  apply N.ltb_lt in E1, E3. apply N.leb_le in E2. intros H. inversion H. auto.
 Qed.
 
 (* a freshly initialised page of segment (base, st) at slice idx whose first entry carries block size bs *)
 Lemma init_page_ok base st ps idx bs cp :
   init_cpage (mkCSeg base st ps) idx bs = Some cp -> bsz (get (entries (fst st)) idx) = bs ->
-  page_ok base (get (entries (fst st)) idx) cp /\ cp_idx cp = idx /\ cp_ghost cp = [].
+  page_ok base (get (entries (fst st)) idx) cp /\ cp_idx cp = idx /\ cp_ghost cp = [] /\ free (cp_page cp) <> [].
 Proof.
-  intros Hi Hbz. destruct (init_cpage_some _ _ _ _ Hi) as (Hbs & Hr & ->).
+  intros Hi Hbz. destruct (init_cpage_some _ _ _ _ Hi) as (Hbs & Hr & -> & Hle).
   destruct (page_init_facts bs (snd (page_area (mkCSeg base st ps) idx)) false Hbs Hr) as (F1 & F2 & F3 & F4 & _).
-  split; [|split; reflexivity].
+  split; [|split; [reflexivity|split; [reflexivity|cbn [cp_page]; apply page_init_free; assumption]]].
   unfold page_ok. cbn [cp_page cp_idx cp_ghost]. split; [assumption|]. split; [congruence|].
   split; [rewrite F3, F2; unfold page_area, page_start; cbn [cs_base cs_st]; rewrite Hbz; reflexivity|].
   unfold ghost_ok. cbn [cp_ghost cp_page map]. split; [constructor|]. split.
@@ -81,7 +81,8 @@ Qed.
 
 Theorem fresh_page_spec m base bs m' idx : mem_inv m -> fresh_page m base bs = Some (m', idx) ->
   mem_inv m' /\ (forall x, In x (live_blocks m') <-> In x (live_blocks m)) /\
-  exists cs' cp', find_seg m' base = Some cs' /\ find_page cs' idx = Some cp' /\ bsize (cp_page cp') = bs.
+  exists cs' cp', find_seg m' base = Some cs' /\ find_page cs' idx = Some cp' /\ bsize (cp_page cp') = bs /\
+                  free (cp_page cp') <> [].
 Proof.
   intros Hm. unfold fresh_page.
   destruct ((0 <? bs) && (bs <=? MI_LARGE_OBJ_SIZE_MAX)) eqn:Ebs; cbn [negb]; [|discriminate].
@@ -111,7 +112,7 @@ Proof.
     destruct (Hdisj i ci Hi) as [Hd|Hd].
     - split; [lia|]. rewrite Hgo by lia. apply Hfr. lia.
     - split; [lia|]. rewrite Hgo by lia. apply Hfr. lia. }
-  destruct (init_page_ok (cs_base cs) st2 (cs_pages cs) idx0 bs cp Ei) as (Hcpok & Ecpi & Ecpg).
+  destruct (init_page_ok (cs_base cs) st2 (cs_pages cs) idx0 bs cp Ei) as (Hcpok & Ecpi & Ecpg & Hcpfree).
   { rewrite Hgi. reflexivity. }
   destruct (info_span_used (sg, qs) Hinv) as (Hinfo & Hinfo0). cbn [fst] in *.
   assert (Hidx0 : 0 < idx0).
@@ -155,7 +156,7 @@ Proof.
   { apply (kset_inv m cs); try assumption; [reflexivity|].
     rewrite !seg_size_normal; [reflexivity|rewrite Est; exact Ek|]. unfold cs'; cbn [set_pages cs_st]. congruence. }
   split; [exact Hm'|]. split; [apply (live_blocks_kset m cs cs' Hm Hcs eq_refl Esb)|].
-  exists cs', cp. split; [|split].
+  exists cs', cp. split; [|split; [|split; [|exact Hcpfree]]].
   - unfold find_seg. rewrite kfind_kset by (change (cs_base cs') with (cs_base cs); apply in_map; assumption).
     change (cs_base cs') with (cs_base cs). rewrite N.eqb_refl. reflexivity.
   - unfold find_page, cs'. cbn [set_pages cs_pages kfind]. rewrite Ecpi, N.eqb_refl. reflexivity.
@@ -186,14 +187,14 @@ Proof.
   destruct (reserved (cp_page cp) =? 1) eqn:Er1; [|discriminate]. apply N.eqb_eq in Er1.
   intros H; inversion H; subst m' idx. clear H.
   destruct (base_ok_spec _ _ _ Eb) as (B1 & B2 & B3 & B4 & B5).
-  destruct (init_cpage_some _ _ _ _ Ecp) as (Hps0 & _ & _).
+  destruct (init_cpage_some _ _ _ _ Ecp) as (Hps0 & _ & _ & _).
   assert (HI : span_Inv st) by (exists [(0, 1); (1, ss - 1)], ss; rewrite Hu; exact Hinv).
   assert (Hused : In (1, ss - 1) (used_spans (fst st))).
   { apply (In_used_spans _ _ _ _ _ _ Hinv). split; [right; left; reflexivity|]. rewrite Hg1. cbn [bsz].
     unfold MI_SEGMENT_SLICE_SIZE. lia. }
   pose proof (set_block_size_facts st 1 (ss - 1) psize HI Hused Hps0) as F. cbv zeta in F. fold st2 in F.
   destruct F as (Hinv2 & Hus2 & Hgo & Hgi & Hk2 & _ & _ & _).
-  destruct (init_page_ok base st2 [] 1 psize cp Ecp) as (Hcpok & Ecpi & Ecpg).
+  destruct (init_page_ok base st2 [] 1 psize cp Ecp) as (Hcpok & Ecpi & Ecpg & _).
   { rewrite Hgi. reflexivity. }
   set (cs' := set_pages (mkCSeg base st2 []) [cp]).
   assert (Hs' : seg_ok cs').
